@@ -86,7 +86,8 @@ Definition step (p : params) (dflt : N) (st : state) (d : decl) : option binding
        mkState (upd (used st) set (i + 1)) (inl st) (inl_keys st))
   | KOther => (None, st)
   | KObj _ =>
-      if skipped_sampler p d then (None, st)
+      if negb (d_extern d) then (None, st)           (* only globals provided from outside the shader are bound *)
+      else if skipped_sampler p d then (None, st)
       else
         let n := slot_count p d in
         if takes_inline p d then
@@ -137,7 +138,7 @@ Definition assign (p : params) (dflt : N) (ds : list decl) : list (option bindin
 
 (* assert_eq!(decl.storage_class, GlobalStorage::Extern) in the inline-constant arm *)
 Definition panics (p : params) (ds : list decl) : bool :=
-  existsb (fun d => negb (skipped_sampler p d) && takes_inline p d && negb (d_extern d)) ds.
+  existsb (fun d => d_extern d && negb (skipped_sampler p d) && takes_inline p d && negb (d_extern d)) ds.
 
 End Model.
 
